@@ -4,10 +4,11 @@
 (* monitor shared by the model (OpMC) and the trace specification          *)
 (* (OpTrace): one source of truth for what "the property holds" means.     *)
 (***************************************************************************)
-EXTENDS GroupBy, Operators
+EXTENDS GroupBy, Operators, ConsistentOutput, Tvf
 
-OpInit(cfg) == CASE cfg.op = "gb" -> GbInit(cfg)
-                 [] OTHER         -> <<>>
+OpInit(cfg) == CASE cfg.op = "gb"  -> GbInit(cfg)
+                 [] cfg.op = "mdw" -> MdwInit
+                 [] OTHER          -> <<>>
 
 OpStep(cfg, st, msg) ==
   CASE cfg.op = "gb"       -> GbStep(cfg, st, msg)
@@ -15,10 +16,16 @@ OpStep(cfg, st, msg) ==
     [] cfg.op = "map"      -> MapStep(cfg, st, msg)
     [] cfg.op = "distinct" -> DistinctStep(cfg, st, msg)
     [] cfg.op = "etbuf"    -> EtbufStep(cfg, st, msg)
+    [] cfg.op = "cout"     -> CoutStep(cfg, st, msg)
+    [] cfg.op = "mdw"      -> MdwStep(cfg, st, msg)
+    [] cfg.op = "tumble"   -> TumbleStep(cfg, st, msg)
 
 OpEos(cfg, st) ==
   CASE cfg.op = "gb"    -> GbEos(cfg, st)
     [] cfg.op = "etbuf" -> EtbufEos(cfg, st)
+    [] cfg.op = "cout"  -> CoutEos(cfg, st)
+    [] cfg.op = "range" -> [st |-> st, out |-> RangeOut(cfg)]
+    [] cfg.op = "poll"  -> [st |-> st, out |-> PollObserved(cfg)]
     [] OTHER            -> [st |-> st, out |-> <<>>]
 
 OpBatch(cfg, inBag) ==
@@ -27,6 +34,7 @@ OpBatch(cfg, inBag) ==
     [] cfg.op = "map"      -> MapBatch(cfg, inBag)
     [] cfg.op = "distinct" -> DistinctBatch(cfg, inBag)
     [] cfg.op = "etbuf"    -> inBag
+    [] cfg.op = "cout"     -> inBag
 
 (* ---- input discipline (DESIGN.md section 5) ---- *)
 RECURSIVE CountOfRow(_, _, _)
@@ -67,5 +75,21 @@ PFail(cfg, ins, outsBefore, stepOut, done) ==
           IsRec(ins[Len(ins)]) /\ (\A i \in 1..Len(ins) : IsRec(ins[i]) => ins[i].t = 0) /\ ~C17Counting(cfg, ins, outs, stepOut)
        THEN "C17: COUNTING n did not emit exactly after every n-th record of the key"
   ELSE IF Chk("C18") /\ cfg.op = "etbuf" /\ ~BufferReleased(ins, outs, done) THEN "C18: event-time buffer release order/completeness"
+  ELSE IF Chk("C22") /\ cfg.op = "cout" /\ C22Fail(ins, outsBefore, stepOut, done) # "" THEN C22Fail(ins, outsBefore, stepOut, done)
+  ELSE IF Chk("C20") /\ cfg.op = "mdw" /\ ~done /\ ins # <<>> /\
+          (LET prev == SubSeq(ins, 1, Len(ins) - 1)
+               RECURSIVE Run(_, _)
+               Run(st, s) == IF s = <<>> THEN st ELSE Run(MdwStep(cfg, st, Head(s)).st, Tail(s))
+           IN MsgBag(MdwStep(cfg, Run(MdwInit, prev), ins[Len(ins)]).out) # MsgBag(stepOut))
+       THEN "C20: max_diff_watermark output differs (dropped/forwarded record, event time, or watermark value)"
+  ELSE IF Chk("C20") /\ cfg.op = "mdw" /\ (~NoLate(outs) \/ \E i, j \in 1..Len(outs) : i < j /\ IsWm(outs[i]) /\ IsWm(outs[j]) /\ outs[j].w <= outs[i].w)
+       THEN "C20: watermarks not strictly increasing, or a record forwarded at or below the current watermark"
+  ELSE IF Chk("C20") /\ cfg.op = "mdw" /\ done /\ stepOut # <<>> THEN "C20: max_diff_watermark emitted something at end of stream"
+  ELSE IF Chk("C21") /\ cfg.op = "tumble" /\ ~done /\ ins # <<>> /\
+          ~(LET m == ins[Len(ins)] IN
+            IF IsWm(m) THEN stepOut = <<m>> ELSE Len(stepOut) = 1 /\ IsRec(stepOut[1]) /\ TumbleRowOk(cfg, m, stepOut[1]))
+       THEN "C21: tumble window bounds / pass-through"
+  ELSE IF Chk("C21") /\ cfg.op = "range" /\ done /\ stepOut # RangeOut(cfg) THEN "C21: range output"
+  ELSE IF Chk("C21") /\ cfg.op = "poll" /\ done /\ stepOut # PollObserved(cfg) THEN "C21: poll rounds"
   ELSE ""
 =============================================================================
